@@ -13,10 +13,16 @@ Alphabet == MCP.alphabet           \* sequence of [name, args (seq of <<key, val
 
 Init == /\ S = Run(Init0, StartMain, 0)
         /\ hist = <<>>
+(* external events: the program's alphabet, and Started / Finished of every action that was started
+   (early, late, twice: also for actions that already finished or were stopped) *)
+StartedActions == {a \in 1..Len(S.actions) : S.actions[a].status \in {"STARTING", "STARTED", "STOPPING", "FINISHED"}}
 Step == /\ Len(hist) < MaxHist
-        /\ \E i \in 1..Len(Alphabet) : \E pick \in 0..MaxPick :
-              /\ S' = Run(S, ExtEvent(Alphabet[i].name, Alphabet[i].args), pick)
-              /\ hist' = Append(hist, <<i, pick>>)
+        /\ \/ \E i \in 1..Len(Alphabet) : \E pick \in 0..MaxPick :
+                 /\ S' = Run(S, ExtEvent(Alphabet[i].name, Alphabet[i].args), pick)
+                 /\ hist' = Append(hist, <<i, pick, 0>>)
+           \/ \E a \in StartedActions : \E w \in {1, 2} :
+                 /\ S' = Run(S, ActionExtEvent(S, a, IF w = 1 THEN "Started" ELSE "Finished"), 0)
+                 /\ hist' = Append(hist, <<-w, 0, a>>)
 Spec == Init /\ [][Step]_vars
 
 (* projection with the same shape as harness/colang2.project_state (what Props2 and the drift check need) *)
@@ -32,7 +38,8 @@ ProjFlow(k) == LET f == Fl(S, k) IN
 Proj == [flows |-> [k \in 1..Len(S.flows) |-> ProjFlow(k)],
          index |-> [i \in 1..Len(S.index) |-> <<S.index[i].k, S.index[i].hid, S.index[i].name>>],
          queue_len |-> Len(S.queue),
-         out |-> [i \in 1..Len(S.out) |-> [name |-> S.out[i].name, args |-> S.out[i].args]]]
+         out |-> [i \in 1..Len(S.out) |-> [name |-> S.out[i].name, act |-> S.out[i].act]],
+         actions |-> [a \in 1..Len(S.actions) |-> [name |-> S.actions[a].name, status |-> S.actions[a].status, scope |-> S.actions[a].scope]]]
 EmitState == PrintT(ToJson([hist |-> hist, proj |-> Proj]))
 
 (* design-level invariants on the specification's own states (C09 at specification level) *)
